@@ -415,7 +415,7 @@ N_ATTR = len(ATTR_CHANNELS) * len(ATTR_SPECIALS)
 
 # ------------------------------------------------------------------------------------------------
 # family opt: optional attributes and column spans
-OPT_CASES = ["no-spans", "spans", "custom-height", "col-span-1", "col-span-2", "col-span-3", "col-overlap-cells", "row-without-cells", "sheet-hidden", "two-sheets-second-active", "merge-cells", "cell-t-n-empty-v"]
+OPT_CASES = ["no-spans", "spans", "custom-height", "col-span-1", "col-span-2", "col-span-3", "col-overlap-cells", "row-without-cells", "sheet-hidden", "two-sheets-second-active", "merge-cells", "cell-t-n-empty-v", "cell-without-r", "row-without-r", "prefixed-main-namespace"]
 
 
 def gen_opt(i):
@@ -441,6 +441,16 @@ def gen_opt(i):
         cols = '<cols><col min="1" max="1" width="5" customWidth="1"/><col min="3" max="4" width="30" customWidth="1" hidden="1"/></cols>'
         intent["sheets"][0]["cols"] = {"00001": {"width": "5"}, "00003": {"width": "30", "hidden": True}, "00004": {"width": "30", "hidden": True}}
     rows = '<row r="1"%s><c r="A1"><v>1</v></c></row><row r="2"><c r="C2"><v>2</v></c></row>' % row1attr
+    if oc == "cell-without-r":
+        # r is optional on <c>: a cell without it follows its predecessor (or starts at column A)
+        rows = '<row r="1"><c><v>1</v></c><c><v>11</v></c></row><row r="2"><c r="C2"><v>2</v></c><c><v>12</v></c></row>'
+        cells[ckey(2, 1)] = {"kind": "n", "value": "11", "bits": bits(11), "formula": ""}
+        cells[ckey(4, 2)] = {"kind": "n", "value": "12", "bits": bits(12), "formula": ""}
+    if oc == "row-without-r":
+        # r is optional on <row>: a row without it follows its predecessor (or is row 1)
+        rows = '<row><c r="A1"><v>1</v></c></row><row><c r="C2"><v>2</v></c></row><row r="5"><c r="B5"><v>5</v></c></row><row><c><v>6</v></c></row>'
+        cells[ckey(2, 5)] = {"kind": "n", "value": "5", "bits": bits(5), "formula": ""}
+        cells[ckey(1, 6)] = {"kind": "n", "value": "6", "bits": bits(6), "formula": ""}
     if oc == "row-without-cells":
         rows += '<row r="5" ht="40" customHeight="1"/>'
         intent["sheets"][0]["rows"] = {"0000005": {"height": "40"}}
@@ -450,7 +460,15 @@ def gen_opt(i):
     if oc == "cell-t-n-empty-v":
         rows += '<row r="3"><c r="A3" t="n"><v></v></c><c r="B3"><v>7</v></c></row>'
         cells[ckey(2, 3)] = {"kind": "n", "value": "7", "bits": bits(7), "formula": ""}
-    p.sheets.append(("Sheet1", sheet_xml(rows, cols=cols, after=after), None, None))
+    sx = sheet_xml(rows, cols=cols, after=after)
+    if oc == "prefixed-main-namespace":
+        # the main namespace bound to a prefix (what the Open XML SDK writes): <x:worksheet xmlns:x="..."><x:sheetData>...
+        import re as _re
+        body = sx[sx.index("<worksheet"):]
+        body = _re.sub(r"<(/?)([A-Za-z])", r"<\1x:\2", body)
+        body = body.replace('xmlns="http://schemas.openxmlformats.org/spreadsheetml/2006/main"', 'xmlns:x="http://schemas.openxmlformats.org/spreadsheetml/2006/main"')
+        sx = sx[:sx.index("<worksheet")] + body
+    p.sheets.append(("Sheet1", sx, None, None))
     if oc == "sheet-hidden":
         p.sheets.append(("Hidden1", sheet_xml('<row r="1"><c r="A1"><v>5</v></c></row>'), None, "hidden"))
         intent["sheets"].append({"name": "Hidden1", "state": "hidden", "cells": {ckey(1, 1): {"kind": "n", "value": "5", "bits": bits(5), "formula": ""}}, "merges": [], "links": {}})
